@@ -17,6 +17,7 @@ def Ok (model : CpuModel) : H → Bool
   | .jmpIndirect6502 => model == .m6502
   | .jmpIndirect65C02 => model == .m65C02
   | .bitImmediate => false
+  | .other => false
   | _ => true
 
 theorem handler_refines (model : CpuModel) (h : H) (hok : Ok model h = true) : Refines model h := by
@@ -235,6 +236,7 @@ theorem handler_refines (model : CpuModel) (h : H) (hok : Ok model h = true) : R
   | txa => exact h_txa model
   | txs => exact h_txs model
   | tya => exact h_tya model
+  | other => simp [Ok] at hok
 
 /-- the open finding: 65C02 `BIT #imm` also writes N and V -/
 def knownDev : Dev := fun model opc =>
